@@ -16,7 +16,7 @@ RULE = ("histories of 1..10 (thorough ..30) operations on one frame: constructor
         "column names, per-column type/ndim/length, and for every universe name: in dict?, hasattr?, what getattr returns; "
         "non-trivial = history with >=1 rejected and >=2 accepted steps or a deletion followed by reuse of the name")
 
-UNIVERSE = ["x", "y", "z", "a b", "items", "filter", "nrow", "_q", "1a", "w"]
+UNIVERSE = ["x", "y", "z", "a b", "items", "filter", "nrow", "_q", "1a", "w", "__idx__"]      # ("__idx__": an identifier with leading underscores, as `__index_level_0__` in files written by pandas)
 TRANSFORMS = ["filter", "filter_out", "head", "tail", "sort", "unique", "rbind", "cbind", "select", "unselect", "rename", "modify", "update", "drop_na", "slice", "copy", "deepcopy", "sample",
               "cbind_long", "update_long", "slice_cols:rev", "slice_cols:neg", "slice_cols:out",
               "modify_grouped:scalar", "modify_grouped:one", "modify_grouped:group", "modify_grouped:two", "modify_grouped:nrow", "modify_grouped:plus1",
